@@ -533,6 +533,10 @@ where
                         // is durable — durable_index may exceed max_index after truncation,
                         // which would cause flush() to short-circuit before the replace lands.
                         self.remove_range(diverge_index..=u64::MAX);
+                        // The tail is gone: pull the allocation cursor back with it
+                        // (insert_to_memory only ever raises it), otherwise a later leader
+                        // append on this node would leave an index gap.
+                        self.next_id.store(diverge_index, Ordering::Release);
                         self.insert_to_memory(tail);
                         let (done_tx, done_rx) = oneshot::channel();
                         self.command_sender
